@@ -33,10 +33,28 @@ type vBehaviour struct {
 	Steps   []vStep  `json:"steps"`
 }
 
-type vRecCC struct{ log func(map[string]any) }
+// vRecCC records the ClientConn callbacks (begin and end).  In the stress driver the
+// callbacks take (jittered) time, as the real ClientConn's do: entering idle tears the channel
+// down, exiting idle rebuilds it.
+type vRecCC struct {
+	log  func(map[string]any)
+	work func()
+}
 
-func (c vRecCC) EnterIdleMode() { c.log(map[string]any{"ev": "cc_enter"}) }
-func (c vRecCC) ExitIdleMode()  { c.log(map[string]any{"ev": "cc_exit"}) }
+func (c vRecCC) EnterIdleMode() {
+	c.log(map[string]any{"ev": "cc_enter"})
+	if c.work != nil {
+		c.work()
+	}
+	c.log(map[string]any{"ev": "cc_enter_end"})
+}
+func (c vRecCC) ExitIdleMode() {
+	c.log(map[string]any{"ev": "cc_exit"})
+	if c.work != nil {
+		c.work()
+	}
+	c.log(map[string]any{"ev": "cc_exit_end"})
+}
 
 // normalised activeCallsCount: the -MaxInt32 sentinel becomes -1000 (the spec's BIG)
 func vCount(m *Manager) int {
@@ -74,7 +92,7 @@ func vRunBehaviour(b *vBehaviour) (events []map[string]any, outcome string) {
 		armedCb = f // gated mode: only one goroutine runs at a time
 		return time.NewTimer(time.Hour)
 	}
-	m = NewManager(vRecCC{s.Log}, 10*time.Second)
+	m = NewManager(vRecCC{log: s.Log}, 10*time.Second)
 	armed := func() bool { return armedCb != nil && m.timer != nil }
 
 	for _, r := range b.Rpcs {
@@ -242,7 +260,15 @@ func TestVerifIdleStress(t *testing.T) {
 				runtimeGosched()
 			}
 		})
-		m = NewManager(vRecCC{log}, time.Millisecond)
+		work := func() {
+			switch jit() {
+			case 0, 1:
+				time.Sleep(time.Duration(20+30*jit()) * time.Microsecond)
+			case 2, 3:
+				runtimeGosched()
+			}
+		}
+		m = NewManager(vRecCC{log: log, work: work}, time.Millisecond)
 		var wg sync.WaitGroup
 		nr := 2 + rng.Intn(4)
 		for r := 0; r < nr; r++ {
